@@ -4,7 +4,7 @@ PROP = dict(
     level="exploration",
     stages=[
         dict(name="c06_image_codecs", src="harness/c06_image_codecs.cc", deps=["harness/c06/codecs.hh"],
-             shards_quick=8, shards_thorough=16, timeout_quick=400, timeout_thorough=1800),
+             shards_quick=8, shards_thorough=16, timeout_quick=600, timeout_thorough=3600),
         dict(name="c06_truncate_fuzz", kind="fuzz", src="fuzz/c06_truncate.cc", deps=("harness/c06/codecs.hh",),
              corpus="corpus/c06", max_len=64,
              seconds_quick=12, seconds_thorough=300, workers_quick=4, workers_thorough=8, replay_ext="fuzz"),
